@@ -180,8 +180,8 @@ type world struct {
 	docID   string
 	colID   string
 	secrets []secret
-	notes   [][]byte          // blocks handed to the network layer
-	seen    map[string]bool   // encryption links seen on earlier blocks of the document
+	notes   [][]byte        // blocks handed to the network layer
+	seen    map[string]bool // encryption links seen on earlier blocks of the document
 	cfgDoc  bool
 	cfgFlds map[string]bool
 	created map[string]bool // fields set by the creating write
@@ -655,7 +655,8 @@ func genCase(r *vc.Rng, id uint64) []string {
 		}
 	}
 	set := subset(r, allFields, 55)
-	if len(set) == 0 {
+	if len(set) == 0 && !r.Chance(1, 2) {
+		// (otherwise: a document created without any value; its fields are first set by updates)
 		set = []string{"a"}
 	}
 	sort.Strings(set)
@@ -732,6 +733,9 @@ func main() {
 			id++
 		}
 		cases = append(cases, []string{fmt.Sprintf("case %d", id), "create isdoc=0 fields= set=a", "update set=a", "delete", "scan", "recv nokey", "recv key"})
+		id++
+		// a document created without any value under document-level encryption, its fields set by updates only
+		cases = append(cases, []string{fmt.Sprintf("case %d", id), "create isdoc=1 fields= set=", "update set=a,b", "update set=a", "scan", "read", "recv nokey", "recv key"})
 		id++
 		cases = append(cases, []string{fmt.Sprintf("case %d", id), "create isdoc=1 fields= set=a,b", "update set=a", "delete", "scan", "recv nokey", "recv key"})
 		id++
